@@ -10,6 +10,11 @@ TRUST = ("g++ 12 as arbiter of 'compiles'; clang 14 front end + LLVM 14 -O2 pipe
          "the fact extractors and rule tables in /verif/engine (exercised by selftest mutants); nothing is executed")
 
 CLAIMED = {
+    "C01": dict(
+        level="other", design="5/C01", technique="structural premises from optimised LLVM IR: index maps (polynomial / bit provenance), allocation-size expressions over all extents (opaque numeric helpers, D-ord max), extent routing, exact array view/at/allocation; plus a stated injectivity lemma",
+        text="Read-back, non-aliasing and in-bounds access are reduced to: the index map is the published injective map at 64-bit width, every allocation site sizes storage as product / ipow(round_pow2(max extent), N) of ALL extents, "
+             "views index with the constructing extents, and the array view addresses exactly element i of the owning buffer. Those premises are decided per instantiation; the lemma connecting them is stated, not machine-checked. Hilbert's walk itself is not decided.",
+        note="round_pow2/ipow contracts assumed (C18 not decided statically); Hilbert bijectivity/range not claimed"),
     "C02": dict(
         level="other", design="5/C02", technique="per-layer contracts over an opaque probe backend decided from loop-free LLVM IR as exact value identities (D-route), composition by induction",
         text="Every layer is analysed once over an opaque backend, for N and M chosen independently: which coordinate component reaches which query argument, how many queries, which queried component "
@@ -26,6 +31,12 @@ CLAIMED = {
         text="One backend query whose k-th argument is an integer conversion of a whitelisted round-to-nearest operation applied to exactly coordinate component k, in the coordinate's own precision "
              "(no narrowing before rounding), for float and double coordinates. The within-one-half bound then rests on the libm/IEEE contract of that operation.",
         note="unrecognised rounding idiom = exit 2; default FP environment assumed"),
+    "C05": dict(
+        level="other", design="5/C05", technique="compile witnesses for all conversions + IR analysis of converting constructors with opaque numeric helpers/nd_map: extents, element count, buffer size, full-box iteration, and the element-wise copy lambda's writer/reader index maps",
+        text="Structural: every conversion compiles; the converted field reports the source's extents with correctly sized storage; the copy is driven over the full extent box; in the copy the destination and source positions of tuple t "
+             "are the two layers' published index maps and components are copied one to one; the source is never written. Value equality at each coordinate follows from these plus C01/C14/C19 but is not executed. "
+             "Hilbert: side length only. lib/cuda: text-level finding only (no CUDA toolchain).",
+        note="one open known finding (cuda_device_array copy assignment) is printed as KNOWN-FINDING; Hilbert walk not decided"),
     "C06": dict(
         level="other", design="5/C06", technique="writer/reader grammar extraction from optimised LLVM IR (opaque stream calls in program order, memory snapshots, read atoms) and pairing; loop summary for the array payload",
         text="Agreement of the writer's and the reader's item tables for every serialisable layer, the array payload and field::dump/field(istream&): same kinds and byte counts, same constants written and required, every "
